@@ -9,7 +9,7 @@ ROOT = os.path.dirname(os.path.dirname(os.path.abspath(__file__)))
 CHECKS = {
  "C20": ("exploration",
          "differential monitor: built CLI binary vs library on byte-identical copies, plus ground truth for honest/tampered chains; every invocation logged",
-         "Honest chains are produced only through `in-toto run|record|sign` under sampled option sets, link names are checked, and `verify` is run on the honest chain and after 11 single tamperings; each exit status is compared with library verification of a byte-identical copy and with the construction's ground truth; `sign --verify`, `key id` and `match-products` are compared with the library's answers.",
+         "Honest chains are produced only through `in-toto run|record|sign` under sampled option sets, link names are checked, and `verify` is run on the honest chain and after 11 single tamperings; each exit status is compared with library verification of a byte-identical copy and with the construction's ground truth; `sign --verify`, `key id` and `match-products` are compared with the library's answers; `match-products` also after exactly 0, 1, 255, 256, 257 and 512 differences (exit status, number of report lines).",
          "Trusted: the harness' copy step (byte-identical directories). Open known finding F6-cli (--use-dsse with -c).",
          "C20"),
  "C16": ("exploration",
@@ -29,7 +29,7 @@ CHECKS = {
          "C09"),
  "C10": ("exploration",
          "history checker against fresh-copy baselines + before/after serialisation of the caller's objects, repeated for map order",
-         "All histories of up to 3 (4) verifications with equal/different parameter dictionaries on one in-memory layout object, on chains biased to the anchors (mixed key/certificate steps, unsorted constraint lists, substitution markers, unclean artifact paths, sublayout); outcomes must equal those of freshly loaded copies (each baseline repeated R times: determinism) and the caller's layout/keys/dictionary must serialise identically after every call.",
+         "All histories of up to 3 (4) verifications with equal/different parameter dictionaries on one in-memory layout object, on chains biased to the anchors (mixed key/certificate steps, unsorted constraint lists, substitution markers, unclean artifact paths, sublayout); outcomes must equal those of freshly loaded copies (each baseline repeated R times: determinism) and the caller's layout/keys/dictionary must serialise identically after every call. Fixed call sequences alternating the two entry points over two directories (the inspected directory of a call must not depend on an earlier call), two layouts sharing a key id, sound / broken chains alternately.",
          "Trusted: nothing beyond the harness; the internal iteration order is sampled, not enumerated (R=24/64 per case).",
          "C10"),
  "C02": ("exploration",
@@ -64,7 +64,7 @@ CHECKS = {
          "C13"),
  "C14": ("exploration",
          "exact-output oracle (streams regenerated from a seed) + causal deadlock witness from /proc, pid from a hook",
-         "RunCommand / InTotoRun / `in-toto run` execute a helper with planned output of 0..1 MiB (4 MiB thorough) per stream in every order, with every kind of exit; captured streams and status are compared exactly; a non-returning call is a violation only with the witness 'child thread blocked in write(2) on fd 1/2, CPU time unchanged over 3 samples', otherwise inconclusive.",
+         "RunCommand / InTotoRun / `in-toto run` execute a helper with planned output of 0..1 MiB (4 MiB thorough) per stream in every order, with every kind of exit; captured streams and status are compared exactly; a non-returning call is a violation only with the witness 'child thread blocked in write(2) on fd 1/2, CPU time unchanged over 3 samples', otherwise inconclusive. Sub-checks for commands of another shape: unstartable commands (missing, open for writing, no x bit, empty, missing interpreter) must be errors; a bare command name is looked up on PATH at every call; standard input, descendants on the streams, blanks in an executable's path.",
          "Trusted: /proc on Linux x86-64; vhelper's deterministic stream generator (shared code with the oracle).",
          "C14"),
  "C04": ("exploration",
